@@ -78,7 +78,7 @@ claim('C11', 'interprocedural ownership/origin analysis of every write on the si
       'Necessary conditions for "signing twice succeeds twice" for every descriptor, metadata map and reference; repository and signer internals are trusted.', 'DESIGN.md 2/C11')
 
 claim('C12', 'panic-site inventory with local discharge proofs (guards, filter/producer summaries, correlated nil-check tracking) + outcome/error consistency + size-cap gates + error-discipline lint',
-      'Static: every non-comma-ok type assertion, slice/string index and slice expression, dereference of the nilable-by-API pointers and of pointers that come out of decoded external data (elements of maps/slices of pointers to JSON structs, pointer fields of JSON structs: nil test required, comma-ok does not count) and of pointer/interface parameters that the function itself compares with nil, call through a nilable verifier field, MustCompile, map update and explicit panic in the product packages is '
+      'Static: every non-comma-ok type assertion, slice/string index and slice expression, dereference of the nilable-by-API pointers and of pointers that come out of decoded external data (elements of maps/slices of pointers to JSON structs, pointer fields of JSON structs: nil test required, comma-ok does not count) and of pointer/interface parameters that the function itself compares with nil, dereference of a local pointer that is nil on one way in (a pointer phi with a nil-constant edge: no dereference reachable from that edge on a path consistent with the facts of the edge; a search that cannot come back empty is discharged at the call sites), call through a nilable verifier field, MustCompile, map update and explicit panic in the product packages is '
       'enumerated and discharged by a proof visible in the code (dominating guard, loop induction over the same/equal-length slice, producer filter summary, constructor post-condition) or by a table line with reason; the two verifier methods '
       'return (outcome, nil) only on paths no error store reaches and otherwise the error just stored; every FetchAll / ReadAll of fetched content is cut by a positive cap on the descriptor fetched (also when the fetch sits in a helper); the compiler-inserted range-over-func misuse panics are exempt only when every ranged iterator comes from outside the module; no decoder error is dropped. '
       'Covers the enumerated panic classes of the module\'s own code for all inputs and configurations; panics and allocations inside dependencies are not analysed.', 'DESIGN.md 2/C12')
